@@ -235,7 +235,14 @@ func report(prop, tier string, seed int, specs []HarnessSpec, known []KnownFindi
 			continue
 		}
 		replayed++
-		ok, out := nativeReplay(path)
+		var ok bool
+		var out string
+		if uv.sp.EngineOnly {
+			ok = engineReplay(uv.sp, &uv.v)
+			out = "engine-only harness: decision prefix re-executed in the engine"
+		} else {
+			ok, out = nativeReplay(path)
+		}
 		if ok {
 			reproduced++
 			violLines = append(violLines, fmt.Sprintf("VIOLATION property=%s replay=%s", prop, path))
